@@ -42,6 +42,8 @@ struct GateInner {
     go: bool,
     available: VecDeque<u8>,
     received: Vec<u8>,
+    /// bytes accepted on connections that have since been replaced (fed to the broker before the new connection is opened there)
+    received_old: Vec<u8>,
     reads: usize,
     writes: usize,
     flushes: usize,
@@ -169,7 +171,7 @@ fn wait_until<F: FnMut() -> bool>(mut f: F, timeout: Duration) -> bool {
 /// Runs the fixed workload on the real threaded client under `plan`.
 pub fn execute(plan: &Plan) -> Outcome {
     let mut out = Outcome { plan: plan.clone(), ..Default::default() };
-    let gate = Arc::new(Gate { inner: Mutex::new(GateInner { phase: Phase::Running, go: false, available: VecDeque::new(), received: Vec::new(), reads: 0, writes: 0, flushes: 0, plan: plan.clone(), eof_now: false, io_log: Vec::new(), generation: 0 }), cv: Condvar::new() });
+    let gate = Arc::new(Gate { inner: Mutex::new(GateInner { phase: Phase::Running, go: false, available: VecDeque::new(), received: Vec::new(), received_old: Vec::new(), reads: 0, writes: 0, flushes: 0, plan: plan.clone(), eof_now: false, io_log: Vec::new(), generation: 0 }), cv: Condvar::new() });
     let conn = Arc::new((Mutex::new(ConnCtl { decisions_made: 0, calls: 0 }), Condvar::new()));
     let refuse = plan.refuse.clone();
     let factory_gate = gate.clone();
@@ -183,6 +185,8 @@ pub fn execute(plan: &Plan) -> Outcome {
         }
         let mut g = factory_gate.inner.lock().unwrap();
         g.generation += 1;
+        let stale = std::mem::take(&mut g.received);
+        g.received_old.extend(stale);
         g.phase = Phase::Running;
         g.available.clear();
         g.eof_now = false;
@@ -238,7 +242,7 @@ pub fn execute(plan: &Plan) -> Outcome {
     let mut connections_seen = 0usize;
     let mut iteration = 0usize;
     let big_payload = pattern(BIG, 0x11);
-    let deadline = Instant::now() + Duration::from_secs(8);
+    let deadline = Instant::now() + Duration::from_secs(20);
     let mut control_done: Vec<usize> = Vec::new();
     let mut idle_iterations = 0usize;
 
@@ -248,13 +252,17 @@ pub fn execute(plan: &Plan) -> Outcome {
     };
 
     'outer: loop {
-        if Instant::now() > deadline { out.machinery.push(format!("execution did not finish in 8 s (iteration {}, events {:?})", iteration, events.lock().unwrap())); break; }
+        if Instant::now() > deadline { out.machinery.push(format!("execution did not finish in 20 s (iteration {}, events {:?})", iteration, events.lock().unwrap())); break; }
         // where is the loop?
         let phase = { gate.inner.lock().unwrap().phase };
         let generation_calls = conn.0.lock().unwrap().decisions_made;
         if generation_calls > connections_seen && phase != Phase::Dropped {
             connections_seen = generation_calls;
-            if !plan.refuse.contains(&(generation_calls - 1)) { broker.open_connection(); connection_open = true; }
+            if !plan.refuse.contains(&(generation_calls - 1)) {
+                let stale: Vec<u8> = { let mut g = gate.inner.lock().unwrap(); std::mem::take(&mut g.received_old) };
+                if connection_open { broker.client_bytes(&stale); broker.close_connection(); }
+                broker.open_connection(); connection_open = true;
+            }
         }
         match phase {
             Phase::InRead => {
@@ -293,6 +301,10 @@ pub fn execute(plan: &Plan) -> Outcome {
                     receivers_pub.push(Slot::new("q0", client.publish(q0, None)));
                 }
                 // finished?  everything resolved and the inbound message surfaced -> stop, then close
+                if stop_issued && !close_issued && events.lock().unwrap().iter().filter(|e| *e == "Stopped").count() > 0 && plan.controls.values().any(|c| matches!(c, Control::StopThenStart)) {
+                    // the plan restarted the client after the harness's final stop: end the run
+                    let _ = client.close(); close_issued = true;
+                }
                 if submitted_workload && !stop_issued && !close_issued {
                     let all = receivers_pub.iter_mut().all(|r| r.poll()) && receivers_sub.iter_mut().all(|r| r.poll()) && callback_count.load(Ordering::SeqCst) >= callbacks_expected && (!inbound.lock().unwrap().is_empty() || (broker.to_client.is_empty() && idle_iterations > 4));
                     if all { let _ = client.stop(None); stop_issued = true; }
@@ -327,8 +339,13 @@ pub fn execute(plan: &Plan) -> Outcome {
                 }
                 if close_issued {
                     // loop death is observable: once the receiver is dropped every API call fails
-                    let dead = wait_until(|| client.start(None).is_err(), Duration::from_secs(5));
-                    if !dead { out.problem("close-does-not-terminate-loop", "5 s after close() the operation channel is still open"); }
+                    // keep granting loop iterations: the loop may be blocked in read() with the shutdown request still in its channel
+                    let dead = wait_until(|| {
+                        { let mut g = gate.inner.lock().unwrap(); if g.phase == Phase::InRead && !g.go { g.go = true; gate.cv.notify_all(); } }
+                        let probe: ClientEventListener = Arc::new(|_event: Arc<ClientEvent>| {});
+                        client.add_event_listener(probe).is_err()
+                    }, Duration::from_secs(10));
+                    if !dead { let ev = events.lock().unwrap().clone(); out.problem("close-does-not-terminate-loop", format!("10 s after close() the operation channel is still open; events {:?}", ev)); }
                     break 'outer;
                 }
                 std::thread::sleep(Duration::from_micros(300));
@@ -352,7 +369,7 @@ pub fn execute(plan: &Plan) -> Outcome {
         wait_until(|| slot.poll_dyn(), settle);
         let name = slot.name().to_string();
         match slot.outcome() {
-            Some(ok) => out.results.push(format!("{}:{}", name, if ok { "ok" } else { "err" })),
+            Some(ok) => { let e = slot.error().to_string(); out.results.push(if ok { format!("{}:ok", name) } else { format!("{}:err({})", name, e) }) }
             None => { out.results.push(format!("{}:NEVER", name)); out.problem(format!("operation-result-never-delivered ({})", if name.contains("close") { name.as_str() } else { "workload" }), format!("receiver of '{}' still empty although the event loop has ended", name)); }
         }
     }
@@ -373,21 +390,22 @@ pub fn execute(plan: &Plan) -> Outcome {
 }
 
 /// A result receiver with a cache (the public receiver only offers a taking `try_recv`).
-pub struct Slot<T> { name: String, receiver: SyncResultReceiver<T>, got: Option<bool> }
+pub struct Slot<T> { name: String, receiver: SyncResultReceiver<T>, got: Option<bool>, error: String }
 
 impl<T> Slot<GneissResult<T>> {
-    fn new(name: &str, receiver: SyncResultReceiver<GneissResult<T>>) -> Self { Slot { name: name.to_string(), receiver, got: None } }
+    fn new(name: &str, receiver: SyncResultReceiver<GneissResult<T>>) -> Self { Slot { name: name.to_string(), receiver, got: None, error: String::new() } }
     fn poll(&mut self) -> bool {
-        if self.got.is_none() { if let Some(result) = self.receiver.try_recv() { self.got = Some(result.is_ok()); } }
+        if self.got.is_none() { if let Some(result) = self.receiver.try_recv() { self.got = Some(result.is_ok()); if let Err(e) = &result { self.error = format!("{}", e).chars().take(60).collect(); } } }
         self.got.is_some()
     }
 }
 
-trait SlotLike { fn poll_dyn(&mut self) -> bool; fn name(&self) -> &str; fn outcome(&self) -> Option<bool>; }
+trait SlotLike { fn poll_dyn(&mut self) -> bool; fn name(&self) -> &str; fn outcome(&self) -> Option<bool>; fn error(&self) -> &str; }
 impl<T> SlotLike for Slot<GneissResult<T>> {
     fn poll_dyn(&mut self) -> bool { self.poll() }
     fn name(&self) -> &str { &self.name }
     fn outcome(&self) -> Option<bool> { self.got }
+    fn error(&self) -> &str { &self.error }
 }
 
 pub fn judge_wire(out: &mut Outcome, broker: &Broker, big_payload: &[u8], inbound_payload: &[u8], inbound: &[Vec<u8>]) {
